@@ -68,6 +68,16 @@ def validate_chunks(ctx, module, tag, traces, chunk=2000, extra_data=None, max_p
         b0 = _run_chunks(ctx, module, tag + 'h', [traces[i] for i in bidx], chunk, dict(ed, strict=False), max_procs, timeout, kw)
         for j, why in b0.items():
             bad[bidx[j]] = why
+    # binding self-test (harness/selftest.py): corrupted copies of accepted traces must be rejected by the full specification
+    from . import selftest
+
+    def _runner(variants):
+        t0, s0 = ctx.traces, ctx.states
+        try:
+            return _run_chunks(ctx, module, tag + 'b', variants, max(1, len(variants)), dict(ed, strict=True), 1, timeout, kw)
+        finally:
+            ctx.traces = t0          # corrupted copies are not traces of the implementation
+    selftest.run(ctx, module, tag, traces, set(bad) | broken, _runner)
     adv = {i: why for i, why in bad.items() if is_advisory(why) and i not in broken}
     if adv:
         idxs = sorted(adv)
